@@ -25,7 +25,7 @@ structure AppState where
   deriving Repr, DecidableEq
 
 def sharedInit : List SharedErr :=
-  Gen.errorsMap.map fun (cls, code, line, body) =>
+  Gen.wsgiErrorsMap.map fun (cls, code, line, body) =>
     { cls := cls, resp := { code := code, line := line.toList, headers := [], cookies := [] },
       body := body.toList, tb := [] }
 
